@@ -25,6 +25,24 @@ CHECKS = {
         "note": "Trusted: Coq kernel+VM, the model of normalized_string.rs (str/char API rendered on scalar lists), the harness. No axioms.",
         "technique": "Coq proof (induction over the scalar list) + model/implementation correspondence via vm_compute",
     },
+    "C01": {
+        "text": "Theorem C01_honest_login (Coq, every username/password text, salt, b, a and challenge on the tape, through export/re-import of the account record): unless into_proof hits its documented panic (B = 0 mod N) the client constructor returns, its A is accepted by the public-key check, the server accepts M1, the client accepts M2, both session keys are equal and 40 bytes long. Rests on: model = SRP6 spec (C03 lemmas), the algebraic identity S_client = S_server for all a,b,x,u >= 0 (no side condition, so negative B - k*v and every count of zero bytes in S are covered), g^a mod N <> 0 (gcd(7,N) = 1), the precomputed xor hash equals the computed one (closed SHA-1 computation), case variants normalise to the same string (C13). Tied to the code by full logins through the public API with an injected tape compared value by value with the model, including rare classes found by Rust-side search.",
+        "design_ref": "DESIGN.md §3 C01",
+        "note": "Trusted: Coq kernel+VM; models of server.rs/client.rs/srp_internal*.rs/key.rs/bigint.rs; SHA-1 and num-bigint primitives modelled; harness and RNG tape hook. No axioms.",
+        "technique": "Coq proof (Z algebra + byte-level lemmas) + model/implementation correspondence via vm_compute",
+    },
+    "C06": {
+        "text": "Theorems (Coq, all names, keys, seeds; each of the three modules modelled from its own source): client proof = SHA1(U|0000|client seed LE|server seed LE|K); server hands out crypto iff the presented proof equals that value for its own seed, else Err{client_proof := presented, server_proof := expected}; client output accepted with swapped seed roles; all 160 bit flips refused; binding of name, both seeds and key in collision form; seed() = the 4 drawn bytes little-endian. Tied to the code by the correspondence over all three modules with tape-injected seeds.",
+        "design_ref": "DESIGN.md §3 C06",
+        "note": "Trusted: Coq kernel+VM; SHA-1 modelled; models of the three ProofSeed impls; harness and RNG tape hook. No axioms.",
+        "technique": "Coq proof + model/implementation correspondence via vm_compute",
+    },
+    "C08": {
+        "text": "Theorems (Coq, all session keys / streams / partitions): both halves key themselves with HMAC-SHA1(TBC seed, K) (the two duplicated seed literals are separate extracted constants proved equal to the TBC seed); any chunking equals the whole-stream recurrence modulo 20; decrypter inverts encrypter with independent chunkings; empty calls; step table; no panic from any state with index < 20. Tied to the code by evaluating the model (concrete HMAC-SHA1 in Coq) on the implementation's inputs/outputs, plus an exhaustive implementation-side step table.",
+        "design_ref": "DESIGN.md §3 C08",
+        "note": "Trusted: Coq kernel+VM; HMAC-SHA1 modelled (RFC 2202 vectors checked in Coq, compared with the hmac crate by the correspondence); harness and hooks. No axioms.",
+        "technique": "Coq proof (induction over the stream) + model/implementation correspondence via vm_compute",
+    },
 }
 
 DONE = set(CHECKS)
